@@ -50,11 +50,19 @@ def parse_tagged(output, tag):
                 buf = None
     return res
 
-def run_tlc(module, cfg, env=None, workers=1, timeout=600, extra=None, metadir=None, heap="4g", cwd=SPEC):
+def run_tlc(module, cfg, env=None, workers=1, timeout=600, extra=None, metadir=None, heap="4g", cwd=SPEC, memqueue=None):
+    """memqueue: keep TLC's queue of unexplored states in memory (StateDeque).  TLC's default queue spills to disk beyond ~8k queued
+    states and its (de)serialisation mangles strings with non-ASCII characters (measured: a TraceLin shard of 237 rounds with the nick
+    'zoë' lost 10 accepting states; with 'zoe', or with StateDeque, none).  Every run whose result does not depend on breadth-first
+    order - trace validation, vector export - uses the in-memory queue; the bounded protocol models need breadth-first order (their depth
+    constraint is on the hidden history) and stay on the default queue: the only one with non-ASCII text (MC_Mask) is far below the
+    spill threshold, and model_check() refuses a non-ASCII model that grows beyond it."""
     os.makedirs(WORK, exist_ok=True)
     md = metadir or tempfile.mkdtemp(prefix="tlc_", dir=WORK)
     e = dict(os.environ)
-    e["JAVA_TOOL_OPTIONS"] = "-Xss1g -Xmx%s -Dfile.encoding=UTF-8 -Dstdout.encoding=UTF-8 -Dsun.stdout.encoding=UTF-8" % heap
+    if memqueue is None: memqueue = not module.startswith("MC_") and module not in ("Keepalive.tla", "LockFlush.tla", "EchoOrder.tla")
+    e["JAVA_TOOL_OPTIONS"] = "-Xss1g -Xmx%s -Dfile.encoding=UTF-8 -Dstdout.encoding=UTF-8 -Dsun.stdout.encoding=UTF-8" % heap + \
+                             (" -Dtlc2.tool.queue.IStateQueue=StateDeque" if memqueue else "")
     if env: e.update(env)
     cmd = ["timeout", str(timeout), "tlc", "-workers", str(workers), "-metadir", md, "-cleanup",
            "-noGenerateSpecTE", "-config", cfg, module]
